@@ -386,7 +386,7 @@ func runOne(sp Spec) Obs {
 	}
 	mu.Lock()
 	ob.Calls = append([]int64(nil), calls...)
-	ob.Saw = append([]int64(nil), saw...)
+	ob.Saw = append([]int64{}, saw...)
 	mu.Unlock()
 	if sp.API != "one" && !(sp.API == "execute" && sp.Arg == int(group.ExecutionStrategyOne)) {
 		sort.Slice(ob.Calls, func(a, b int) bool { return ob.Calls[a] < ob.Calls[b] })
@@ -547,8 +547,8 @@ func genC17(o *vcoq.Out, r *vcoq.Rand, tier string) error {
 	o.Rule = "exhaustive: member counts 0-4 x every success/failure assignment x every completion order x Execute with strategies 0-7 (Unspecified, All, Most, Any, One, Fast, Race, out-of-range) with members that ignore their context, and the same space with cancellation-aware members for the parallel strategies; plus ExecuteOne/Fast/Race called directly and ExecuteUpTo with budgets -1..n+1 over the same space subsampled. n = 5 with context-ignoring members, all outcome assignments x all orders, one strategy drawn per case (thorough: strategies 1-6 each). random: 5-8 members (thorough: more of them), outcomes success / failure / failure carrying a message, random awareness, random order, random API. Members are gated by channels released one per step; the driver waits for quiescence (stop-the-world stack dump) between steps. Non-trivial: at least 2 members and at least one failure or a parallel early-return strategy. Distinct by the full (api, members, order) input."
 	var specs []Spec
 	add := func(a apiSel, outs []int, aware []bool, order []int) {
-		specs = append(specs, Spec{API: a.api, Arg: a.arg, Outs: append([]int(nil), outs...),
-			Aware: append([]bool(nil), aware...), Order: append([]int(nil), order...)})
+		specs = append(specs, Spec{API: a.api, Arg: a.arg, Outs: append([]int{}, outs...),
+			Aware: append([]bool{}, aware...), Order: append([]int{}, order...)})
 	}
 	maxN := 4
 	for n := 0; n <= maxN; n++ {
